@@ -4,7 +4,7 @@ from vlib import lib, tablecheck
 from vlib.oracle import Ref
 
 PROPERTY = 'C03'
-RULE = ('cases are context tables (plus Hypothesis tables wider than a machine word: 1-6 x 60-140 and transposed): every boolean table with n*m <= 12 (quick) / <= 18 plus 4x5, 5x4 and '
+RULE = ('cases are context tables (plus Hypothesis tables wider than a machine word: 1-6 x 60-320 and transposed): every boolean table with n*m <= 12 (quick) / <= 18 plus 4x5, 5x4 and '
         'all row multisets of 5x5 and 6x4 (thorough), labels permuted against position, plus Hypothesis '
         'tables from explicit fill families (Bernoulli density classes, nominal/ordinal/interordinal/'
         'contranominal/dichotomic scales and appositions, perturbed by flips, duplicated/full/empty rows and '
